@@ -92,7 +92,7 @@ class FuncGen:
         self.entry = entry
         self.helpers = list(helpers)
         self.o = dict(nblocks=6, ninsn=8, nint=10, ndbl=4, fuel=40, mem=True, calls=True, fp=True, alloca=True,
-                      switch=True, jmpi=True, ovf=True)
+                      switch=True, jmpi=True, ovf=True, xcalls=False)
         self.o.update(opts or {})
         self.ins = []
         self.ints = [f"i{k}" for k in range(self.o["nint"])]
@@ -409,8 +409,36 @@ class FuncGen:
 
     def gen_call(self):
         r = self.r
-        k = r.below(8)
+        k = r.below(10 if self.o["xcalls"] else 8)
         P = self.prog
+        if k == 8:
+            # a call with two results and the same operation applied to each of them
+            P.protos.add("pe2r: proto i64, i64, i64:a"); P.imports.add("extpair")
+            d1, d2 = self.ireg(), self.ireg()
+            self.emit("call", "pe2r", "extpair", "t0", "t1", self.isrc())
+            op, c = r.choice(["add", "xor", "mul", "sub"]), r.choice([5, 3, 0x1234, -7])
+            self.emit(op, d1, "t0", c)
+            self.emit(op, d2, "t1", c)
+            if d1 == d2:
+                self.emit(op, d1, d1, "t0")
+            self.stat("pair_call")
+            return
+        if k == 9 and self.o["fp"]:
+            # a long double local whose address escapes to a call (it must live in memory: two stack slots)
+            # while other values stay live across the call
+            P.protos.add("pepl: proto p:p, i64:a"); P.imports.add("extld")
+            l = r.choice(LDREGS)
+            self.emit("ldmov", "lv", l)
+            self.emit("addr", "t1", "lv")
+            self.emit("call", "pepl", "extld", "t1", self.isrc())
+            if r.chance(1, 2):
+                self.emit("ldadd", l, l, "lv")
+            else:
+                self.emit("ldmov", r.choice(LDREGS), ("mem", "ld", 0, "t1", None, 1))
+            self.stat("ld_addr_call")
+            return
+        if k >= 8:
+            k = r.below(8)
         if k == 0:
             P.protos.add("pe1: proto i64, i64:a"); P.imports.add("ext1")
             self.emit("call", "pe1", "ext1", self.ireg(), self.isrc())
@@ -575,7 +603,7 @@ class FuncGen:
             self.emit("dmov", reg, r.choice(dsrcs) if r.chance(2, 3) else ("d", r.choice([0.0, 1.0, -1.5, 3.25, 1e10, -0.0])))
         for reg in self.flts:
             self.emit("fmov", reg, ("f", r.choice([0.0, 1.0, -2.5, 0.125])))
-        for reg in LDREGS:
+        for reg in LDREGS + (["lv"] if self.o["xcalls"] else []):
             self.emit("d2ld", reg, r.choice(dsrcs))
         for reg in ["acc", "t0", "t1", "tx", "tb", "tj", "av", "ap"] + LOOPREGS:
             self.emit("mov", reg, 0)
@@ -654,7 +682,7 @@ class FuncGen:
         else:
             header = "i64, i64:a0, i64:a1, d:x0"
             locs = [f"i64:{x}" for x in self.ints + ["acc", "t0", "t1", "tx", "tb", "tj", "av", "ap", "fuel", "tal", "buf"] + LOOPREGS]
-        locs += [f"d:{x}" for x in self.dbls + ["dt"]] + [f"f:{x}" for x in self.flts] + [f"ld:{x}" for x in LDREGS]
+        locs += [f"d:{x}" for x in self.dbls + ["dt"]] + [f"f:{x}" for x in self.flts] + [f"ld:{x}" for x in LDREGS + (["lv"] if self.o["xcalls"] else [])]
         self.emit("ret", "acc")
         self.prog.funcs.append((self.fname, header, locs, self.ins))
 
